@@ -1417,8 +1417,7 @@ class LangServer:
             if file_obj is not None:
                 ast_old = file_obj.ast
                 if ast_old is not None:
-                    for key in ast_old.global_dict:
-                        self.obj_tree.pop(key, None)
+                    self._remove_global_objects(ast_old, filepath)
                 # Update the links of the remaining files
                 self.link_version = (self.link_version + 1) % 1000
                 for _, tmp_file in self.workspace.items():
@@ -1442,6 +1441,19 @@ class LangServer:
                 file_obj.ast.resolve_links(self.obj_tree, self.link_version)
         if not self.disable_diagnostics:
             self.send_diagnostics(uri)
+
+    def _remove_global_objects(self, ast_old, filepath: str) -> None:
+        """Remove the top-level objects of a file from the object tree. A name
+        that another file defines as well is handed to that file instead of
+        vanishing (e.g. after a copy of a module has been renamed)"""
+        for key in ast_old.global_dict:
+            self.obj_tree.pop(key, None)
+            for path, other in self.workspace.items():
+                if path == filepath or other.ast is None:
+                    continue
+                if key in other.ast.global_dict:
+                    self.obj_tree[key] = [other.ast.global_dict[key], path]
+                    break
 
     def update_workspace_file(
         self,
@@ -1479,8 +1491,7 @@ class LangServer:
         # Remove old objects from tree
         ast_old = file_obj.ast
         if ast_old is not None:
-            for key in ast_old.global_dict:
-                self.obj_tree.pop(key, None)
+            self._remove_global_objects(ast_old, filepath)
         # Add new file to workspace
         file_obj.ast = ast_new
         if filepath not in self.workspace:
